@@ -102,9 +102,9 @@ FAULT SCRIPT (--script file, or POST /_emu/script): a JSON list of rules
     "noheader"      perform the request (unless "apply": false), answer normally but without the
                     Content-Type header; for Google session-start: without the Location header.
     "reset-before"  close the connection without reading the body and without sending anything.
-    "reset-inside"  read a part of the request body ("after_bytes", default 1; never more than
-                    the first transfer chunk / Content-Length), then close the socket with
-                    SO_LINGER 0 (TCP RST).  Nothing is performed.
+    "reset-inside"  read "after_bytes" (default 1) bytes of the request body (all of it when it
+                    is shorter), then close the socket with SO_LINGER 0 (TCP RST) without sending
+                    anything.  Nothing is performed.
     "corrupt"       accept the upload but flip one byte ("offset", default middle) of what gets
                     stored, so every checksum the emulator reports (computed from the stored
                     bytes) differs from the client's.  Default endpoint filter: upload-data
@@ -508,16 +508,18 @@ def read_chunk_header(rfile, sink):
 
 
 def read_body(handler, limit=None):
-    """Read the (possibly chunked) request body.  With `limit`: read at most `limit` bytes of the
-    first chunk / of the Content-Length bytes and return (partial read, used by reset-inside)."""
+    """Read the (possibly chunked) request body.  With `limit`: stop after `limit` body bytes (or at
+    the end of the body if it is shorter) and return what was read (used by reset-inside)."""
     rfile, headers, sink = handler.rfile, handler.headers, []
     try:
         if "chunked" in headers.get("Transfer-Encoding", "").lower():
             while True:
                 size = read_chunk_header(rfile, sink)
                 if limit is not None:
-                    read_exact(rfile, min(size, limit), sink)
-                    return b"".join(sink)
+                    got = sum(len(piece) for piece in sink)
+                    if size == 0 or got + size >= limit:
+                        read_exact(rfile, min(size, limit - got), sink)
+                        return b"".join(sink)
                 if size == 0:
                     while True:           # trailers
                         line = rfile.readline(65537)
